@@ -802,7 +802,14 @@ class Exec:
             if self.branch(present, "haskey"):
                 new_seq = self.seq(d)
             else:
-                new_seq = z3.Concat(self.seq(d), z3.Unit(k.t))
+                old_seq = self.seq(d)
+                new_seq = z3.Concat(old_seq, z3.Unit(k.t))
+                # key_index (first position of a key in the key order) of the extended order:
+                # the new key sits at the end, every other key keeps its position
+                x = z3.Const("x!ki", S.Val)
+                self.assume(S.key_index(new_seq, k.t) == z3.Length(old_seq))
+                self.assume(z3.ForAll([x], z3.Implies(x != k.t, S.key_index(new_seq, x) == S.key_index(old_seq, x)),
+                                      patterns=[S.key_index(new_seq, x)]))
             self.wr("seq", oid, new_seq)
             self.wr("dmap", oid, z3.Store(self.dmap(d), k.t, v.t))
             self.wr("ddom", oid, z3.Store(self.ddom(d), k.t, z3.BoolVal(True)))
